@@ -57,7 +57,8 @@ def action():
     cpus = st.lists(st.integers(0, 15), min_size=1, max_size=6)
     return st.one_of(
         st.tuples(st.just("nice"), st.integers(-20, 19)),
-        st.tuples(st.just("nice"), st.integers(-20, 19)),
+        # -1 is also getpriority()'s error return value
+        st.tuples(st.just("nice"), st.sampled_from([-1, -1, 0, -20, 19, 1])),
         st.tuples(st.just("ionice"), st.sampled_from([0, 1, 2, 3, None]),
                   st.sampled_from([None, 0, 1, 2, 3, 4, 5, 6, 7, 8, -1])),
         st.tuples(st.just("ionice"), st.sampled_from([1, 2]), st.integers(0, 7)),
@@ -172,7 +173,12 @@ def _run_live(case, state):
                 continue
             before = snapshot(target.pid)
             desc = f"{kind}{tuple(op[1:])}"
-            # ---- get == kernel
+            # ---- get == kernel (whatever an unrelated, failed system call
+            # left in errno beforehand)
+            try:
+                os.stat("/nonexistent-psv-c18")
+            except OSError:
+                pass
             try:
                 if p.nice() != before["nice"]:
                     raise Violation("get-nice", f"{p.nice()} kernel {before['nice']}")
@@ -181,8 +187,10 @@ def _run_live(case, state):
                     raise Violation("get-ionice", f"{io} kernel {before['ioprio']}")
                 if p.cpu_affinity() != before["aff"]:
                     raise Violation("get-affinity", f"{p.cpu_affinity()} kernel {before['aff']}")
-            except psutil.Error as e:
-                raise Violation("get-raises", repr(e)) from None
+            except Violation:
+                raise
+            except Exception as e:  # noqa: BLE001
+                raise Violation("get-raises", f"{e!r} (kernel state {before})") from None
             exc = None
             try:
                 if kind == "nice":
